@@ -53,6 +53,8 @@ fn sheet_name() -> impl Strategy<Value = Option<String>> {
         1 => Just(Some("Q1".to_string())),
         1 => Just(Some("AB12".to_string())),
         1 => Just(Some("Übersicht".to_string())),
+        1 => Just(Some("Données".to_string())),
+        1 => Just(Some("日本 語".to_string())),
         1 => Just(Some("It's".to_string())),
     ]
 }
@@ -64,7 +66,7 @@ fn leaf() -> impl Strategy<Value = Expr> {
             let b = CellRef { row: a.row + dr, col: a.col + dc, abs_row: a.abs_row, abs_col: a.abs_col };
             Expr::Area(s, a, b)
         }),
-        1 => proptest::sample::select(vec!["Rate_2023", "Tax.Rate1", "XYZZY9", "_x1", "Total", "ABCD1"]).prop_map(|s| Expr::Name(s.to_string())),
+        1 => proptest::sample::select(vec!["Rate_2023", "Tax.Rate1", "XYZZY9", "_x1", "Total", "ABCD1", "Größe", "Données_2", "合計"]).prop_map(|s| Expr::Name(s.to_string())),
         2 => proptest::sample::select(vec!["1", "2.5", "100", "1E5", "1.5E-3", "0.25", "3E+10"]).prop_map(|s| Expr::Num(s.to_string())),
         2 => proptest::sample::select(vec!["", "a", "A1", "see B2:C3", "x\"y", "é", "R1C1 $A$1", "it's 'B7'", "日本 C3"]).prop_map(|s| Expr::Str(s.to_string())),
         1 => any::<bool>().prop_map(Expr::Bool),
@@ -84,7 +86,7 @@ pub fn expr() -> impl Strategy<Value = Expr> {
     })
 }
 
-fn case_strategy() -> impl Strategy<Value = Case> {
+pub fn case_strategy() -> impl Strategy<Value = Case> {
     let origin = (proptest::sample::select(vec![0u32, 0, 5, 100, 5000]), proptest::sample::select(vec![0u32, 0, 1, 24, 700]));
     let group = (0u32..5, 0u32..6, prop_oneof![2 => (2u32..7, Just(1u32)), 2 => (Just(1u32), 2u32..7), 3 => (2u32..6, 2u32..6)], expr(), 0u32..3);
     (origin, proptest::collection::vec(group, 1..5), proptest::collection::vec((0u32..5, 0u32..8, expr()), 0..4), proptest::collection::vec((0u32..4, 0u32..8), 0..4), enc_strategy()).prop_map(|((r0, c0), gs, ps, cs, enc)| {
@@ -117,7 +119,7 @@ fn case_strategy() -> impl Strategy<Value = Case> {
 
 // ---------------------------------------------------------------------------------------------
 
-fn build(case: &Case) -> (XlsxDoc, BTreeMap<Pos, String>) {
+pub fn build(case: &Case) -> (XlsxDoc, BTreeMap<Pos, String>) {
     let mut cells: BTreeMap<Pos, XCell> = BTreeMap::new();
     let mut expected: BTreeMap<Pos, String> = BTreeMap::new();
     let num = || XVal::Num { lex: "0".into(), typed: false };
